@@ -221,7 +221,8 @@ def _body(rng, reqs, gl_positions, final_newline, ret, v0, gl_reqs=(), dialect=F
 
 
 NAME_POOL = [b'a', b'b', b'c', b'util', b'lib/util', b'lib/deep/x', b'mod.lua', b'3d', b'sp ace', b'eng/core',
-             b'eng/gfx', b'x_y', b'q"z', b'b\\s', b"it's", b'n-1', b'A']
+             b'eng/gfx', b'x_y', b'q"z', b'b\\s', b"it's", b'n-1', b'A', b'w?y', b'p;q', b'caf\xc3\xa9', b'lib',
+             b'eng']
 
 
 def _cand(pat, name, src):
@@ -280,6 +281,8 @@ def gen_case(rng, tier, ambiguous_ok=False):
         c = _cand(pats[pat_i], name, src)
         if c is None or c in files or c == 'out.p8':
             continue
+        if any(f.startswith(c + '/') or c.startswith(f + '/') for f in files):
+            continue            # a path cannot be a file and a directory
         if name in names:
             continue
         # earlier patterns must not hit an existing file; later code checks again
@@ -449,6 +452,10 @@ def corpus_cases():
     yield _mk({'main.lua': b'x=require("zz")\n'}, tag='missing')
     yield _mk({'main.lua': b'x=require("a")\ny=require("a.lua")\n', 'a.lua': b'return 1\n'}, tag='two-names-one-file')
     yield _mk({'main.lua': b'x=require("a")\n', 'a.lua': b''}, tag='empty-package')
+    yield _mk({'main.lua': b'a=require("lib")\nb=require("lib/x")\n', 'lib.lua': b'return 1\n', 'lib/x.lua': b'return 2\n'},
+              tag='directory-and-file')
+    yield _mk({'main.lua': b'a=require("caf\xc3\xa9")\nx\x8b=1\n', 'caf\xc3\xa9.lua': b'\x80y=2\nreturn \x80y\n'}, tag='high-bytes')
+    yield _mk({'main.lua': b'a=require("\x80")\n', '\x80.lua': b'return 2\n'}, tag='name-not-utf8')
     yield _mk({'src/main.lua': b'x=require("u")\n', 'shared/u.lua': b'function _init() end\nreturn 1'}, main='src/main.lua',
               arg=SB + '/shared/?.lua;?', tag='abs-path')
 
@@ -463,9 +470,12 @@ def _subst(s, sb):
 
 
 def _code_of_p8(data):
+    """The __lua__ section as P8SCII bytes (the .p8 text is the UTF-8 of P8SCII's Unicode rendering; for
+    ASCII the conversion is the identity; the bijection is property C15's theorem)."""
+    from pico8.lua import lua
     i = data.index(b'__lua__\n') + 8
     j = data.rindex(b'__gfx__\n')
-    return data[i:j]
+    return lua.unicode_to_p8scii(data[i:j].decode('utf-8'))
 
 
 def run_impl(case):
